@@ -121,28 +121,35 @@ impl<'de> Deserialize<'de> for Loop3D {
         let mut ret = Self::new();
 
         if let Value::Array(a) = data {
+            let not_numbers =
+                || serde::de::Error::custom("Expecting Polygon3D to be an array of numbers");
             let mut it = a.iter();
 
             while let Some(x) = it.next() {
                 let x = match x {
-                    Value::Number(x) => x.as_f64().unwrap() as Float,
-                    _ => panic!("Expecting Polygon3D to be an array of numbers"),
+                    Value::Number(x) => x.as_f64().ok_or_else(not_numbers)? as Float,
+                    _ => return Err(not_numbers()),
                 };
                 let y = it.next();
                 let y = match y {
-                    Some(Value::Number(y)) => y.as_f64().unwrap() as Float,
-                    _ => panic!("Expecting Polygon3D to be an array of numbers"),
+                    Some(Value::Number(y)) => y.as_f64().ok_or_else(not_numbers)? as Float,
+                    _ => return Err(not_numbers()),
                 };
                 let z = it.next();
                 let z = match z {
-                    Some(Value::Number(z)) => z.as_f64().unwrap() as Float,
-                    _ => panic!("Expecting Polygon3D to be an array of numbers"),
+                    Some(Value::Number(z)) => z.as_f64().ok_or_else(not_numbers)? as Float,
+                    _ => return Err(not_numbers()),
                 };
-                ret.push(Point3D { x, y, z }).unwrap();
+                ret.push(Point3D { x, y, z })
+                    .map_err(serde::de::Error::custom)?;
             }
+        } else {
+            return Err(serde::de::Error::custom(
+                "Expecting Polygon3D to be an array of numbers",
+            ));
         }
 
-        ret.close().unwrap();
+        ret.close().map_err(serde::de::Error::custom)?;
 
         Ok(ret)
     }
